@@ -36,11 +36,32 @@ N_RANDOM = {"quick": 30_000, "thorough": 3_000_000}
 FIN_RACE = [(r, gap, k) for r in (0, 1, 3) for gap in (0.0, EPS, DEFAULT_LATENCY) for k in (1, 2, 3)]
 
 
+# keep-alive off and OVERLAPPING callers: a transport must not outlive the request it was opened for, also when the
+# next request is already queued (every request then has a transport of its own)
+OVERLAP = [(tr, r, n, f, gap) for tr in ("udp", "tcp") for r in (0, 2) for n in (2, 3)
+           for f in ("ok", "drop_first", "second_silent") for gap in (0.0, EPS, DEFAULT_LATENCY / 2)]
+# keep-alive switched off while a transport from the keep-alive period is still open, then close()
+TOGGLE_CLOSE = [(tr, mid) for tr in ("udp", "tcp") for mid in ("none", "sleep", "newloop")]
+
+
 def n_cases(tier):
-    return N_RANDOM[tier] + len(FIN_RACE)
+    return N_RANDOM[tier] + len(FIN_RACE) + len(OVERLAP) + len(TOGGLE_CLOSE)
 
 
 def make_case(tier, seed, index):
+    if index >= N_RANDOM[tier] + len(FIN_RACE) + len(OVERLAP):
+        tr, mid = TOGGLE_CLOSE[index - N_RANDOM[tier] - len(FIN_RACE) - len(OVERLAP)]
+        steps = [{"op": "req", "faults": [], "connects": []}, {"op": "toggle"}]
+        if mid == "sleep":
+            steps.append({"op": "sleep", "d": 3.0})
+        elif mid == "newloop":
+            steps.append({"op": "newloop"})
+        steps += [{"op": "close"}, {"op": "req", "faults": [], "connects": [], "final": True}]
+        return {"transport": tr, "keep_alive": True, "timeout": 0.5, "retries": 1, "steps": steps}
+    if index >= N_RANDOM[tier] + len(FIN_RACE):
+        tr, r, n, f, gap = OVERLAP[index - N_RANDOM[tier] - len(FIN_RACE)]
+        return {"kind": "overlap", "transport": tr, "keep_alive": False, "timeout": 0.5, "retries": r, "n": n, "faults": f,
+                "gap": gap, "steps": []}
     if index >= N_RANDOM[tier]:
         # a peer that closes the kept-alive TCP connection right after every answer, and a client that issues its
         # next request without a pause: the connection is 'dropped' when the next request starts
@@ -115,6 +136,8 @@ def make_case(tier, seed, index):
 
 def simplify(case):
     out = []
+    if case.get("kind") == "overlap":
+        return out
     for i, s in enumerate(case["steps"]):
         if s["op"] == "sleep" and s["d"] > 0.25:
             c = dict(case)
@@ -124,7 +147,62 @@ def simplify(case):
     return out
 
 
+def run_overlap(case):
+    tr, tau, r, n = case["transport"], case["timeout"], case["retries"], case["n"]
+    world = World(max_steps=100_000)
+    dev = SimInverter(mode="stamp")
+    world.net.add_device(C.HOST, C.port_of(tr), dev)
+    proto = C.make_protocol(tr, tau, r, False)
+    net = world.net
+    recs = []
+    faults = {"ok": [], "drop_first": [{"k": "drop"}], "second_silent": [{"k": "ok"}] + [{"k": "drop"}] * (r + 1)}[case["faults"]]
+
+    async def one(i):
+        if i:
+            await asyncio.sleep(i * case["gap"])
+        rec = await C.do_execute(world, proto, {"op": "read", "reg": 35100 + i, "count": 2}, "req%d" % i)
+        rec["open_after"] = len(net.open_transports())
+        recs.append(rec)
+
+    async def main():
+        net.begin_script(faults, {"k": "ok"})
+        await asyncio.gather(*[one(i) for i in range(n)])
+        await asyncio.sleep(2 * tau)
+
+    status, _ = C.run_world(world, main())
+    violations = []
+    if status != "ok":
+        violations.append(viol(f"C10:hang:{tr}", f"overlapping requests did not terminate: {status}"))
+    # which transports carried which request (by the register in the frame)
+    tids = {}
+    for t in net.transmissions:
+        d = t["data"]
+        reg = ((d[8] << 8) | d[9]) if tr == "tcp" else ((d[2] << 8) | d[3])
+        tids.setdefault(t["tid"], set()).add(reg)
+    shared = {tid: regs for tid, regs in tids.items() if len(regs) > 1}
+    if shared:
+        tid, regs = sorted(shared.items())[0]
+        violations.append(viol(f"C10:outlived-its-request:{tr}",
+                               f"keep-alive off, {n} overlapping callers: transport #{tid} carried the requests for registers "
+                               f"{sorted(regs)} - it stayed open after the request it was opened for had completed"))
+    if len(net.open_transports()) != 0:
+        violations.append(viol(f"C10:left-open:{tr}:overlap", f"{len(net.open_transports())} transport(s) open after all callers returned"))
+    open_now = set()
+    for e in world.events:
+        if e[2] == "open":
+            if open_now:
+                violations.append(viol(f"C10:two-open:{tr}:noka", f"transport #{e[4]} opened at t={e[1]} while {sorted(open_now)} still open"))
+                break
+            open_now.add(e[4])
+        elif e[2] == "close":
+            open_now.discard(e[4])
+    sig = ("overlap", tr, r, n, case["faults"], case["gap"])
+    return C.package(world, case, violations, sig, True, {"overlap_cases": 1, "transports_opened": len(net.transports)})
+
+
 def run_case(case):
+    if case.get("kind") == "overlap":
+        return run_overlap(case)
     goodwe, gp, ge = C.goodwe_mods()
     tr, tau, r, ka = case["transport"], case["timeout"], case["retries"], case["keep_alive"]
     world = World(max_steps=100_000)
